@@ -182,6 +182,17 @@ def streams(rng, tier):
     a = Stream("tokenise-wellformed", "hcore", ops, judge=judge_tokdec_tree, rule=RULE)
     a.shrinkable = False
     yield a
+    # indefinite containers nested beyond any round limit (a tokenizer has no business counting what is open)
+    dops = []
+    for d in (127, 128, 129, 130, 255, 256, 257, 300, 1025) + (() if q else (4097, 20000)):
+        dops.append(f"tokdec {'9f' * d}00{'ff' * d} #T={','.join(['beginarray'] * d + ['int:0'] + ['break'] * d)}")
+        dops.append(f"tokdec {'bf00' * d}00{'ff' * d} #T={','.join(['beginmap', 'int:0'] * d + ['int:0'] + ['break'] * d)}")
+        dops.append(f"tokdec {'9fbf00' * d}5f4101ff{'ffff' * d} #T={','.join(['beginarray', 'beginmap', 'int:0'] * d + ['beginbytes', 'bytes:h01', 'break'] + ['break'] * (2 * d))}")
+        dops.append(f"tokdec {'9f9fff' * d}{'ff' * d} #T={','.join(['beginarray', 'beginarray', 'break'] * d + ['break'] * d)}")       # many siblings AND depth
+    a3 = Stream("deep-indefinite-nests", "hcore", dops, judge=judge_tokdec_tree,
+                rule="tokdec of indefinite arrays / maps nested 127..1025 (thorough: 20000) deep, alone, alternating, with a chunked string at the bottom: every token, then the end")
+    a3.shrinkable = False
+    yield a3
     # the three ways to obtain a tokenizer must agree (the stream above judges Decoder::tokens() against the tree)
     c_ops = []
     for sq in seqs[:4000 if q else 40000]:
